@@ -36,8 +36,11 @@ def exprs(tier):
     out = [a for a in L.solids(tier) + L.products(tier) if G.free_vars(a)] + two + mixed
     out += [L.B(a) for a in out if G.is_solid(a) and not G.has_kind_prod(a)][: (25 if tier == "quick" else 10 ** 6)]
     out += [L.BL(L.I_MOVE), L.BR(L.I_GROW), L.Pt([L.aff(0, t=1), 0.5])]
+    # single end points of an interval whose bounds depend on TWO variables (partial evaluations leave one open)
+    i2 = L.I(L.aff(0, s=1, t=0.5), L.aff(2, s=1, t=1))
+    out += [L.BL(i2), L.BR(i2)]
     # shape / motion functions that DECLARE a default for a variable: fixing that optional variable by a call must count
-    out += L.default_exprs(tier)[:3] + [L.Rot(L.SQ, G.affd(0.0, {"w": 1.0}, t=1.0, w=0.5))]
+    out += L.default_exprs(tier)[:3] + L.default_exprs(tier)[4:] + [L.Rot(L.SQ, G.affd(0.0, {"w": 1.0}, t=1.0, w=0.5))]
     return L.dedupe(out)
 
 
@@ -270,6 +273,12 @@ def run_item(item):
                         if ((o2["contains"] != o1["contains"]) & farb).any():
                             viol("C17|original-changed|branch-membership|%s" % top_sig(a),
                                  "after %s, evaluating the ORIGINAL at %s=%s denotes another set than a fresh domain at those values" % (hist, u, w))
+                        # ... and has the same box (exact for everything but dependent products, whose box is sampled)
+                        if not _dependent_prod(a) and isinstance(o2["box"], np.ndarray) and isinstance(o1["box"], np.ndarray) and \
+                                (o2["box"].shape != o1["box"].shape or not np.allclose(o2["box"], o1["box"], rtol=1e-5, atol=1e-6)):
+                            viol("C17|original-changed|branch-box|%s" % top_sig(a),
+                                 "after %s, evaluating the ORIGINAL at %s=%s gives the box %s, a fresh domain at those values %s" % (
+                                     hist, u, w, np.round(o2["box"], 4).tolist(), np.round(o1["box"], 4).tolist()))
                     except Exception as e:
                         if not is_deliberate(e):
                             viol("C17|error|%s|branch|%s" % (type(e).__name__, top_sig(a)), "after %s, evaluating the original at %s=%s raised %s: %s" % (hist, u, w, exc_sig(e), str(e)[:100]))
